@@ -11,7 +11,7 @@
     - [path_append base [c1..cn]] : base/c1/../cn - "inside base at depth n";
     - [cv a b]         : a and b differ only in the case of ASCII letters. *)
 From Coq Require Import List NArith Bool.
-From V Require Import Common.Bytes Names.Path Names.Model Names.PathProofs Names.Proofs Names.Confine Names.Fold Names.Fold2 Names.Existing Names.Main.
+From V Require Import Common.Bytes Names.Path Names.Model Names.PathProofs Names.Proofs Names.Confine Names.Fold Names.Fold2 Names.Existing Names.Hist Names.HistProofs Names.Main.
 Import ListNotations.
 Open Scope N_scope.
 
@@ -306,3 +306,51 @@ Example C13_casefold_legacy_unrepaired_partial_nonvacuous :
   let a := MkM [104] [110] [77] [116] in let b := MkM [104] [120] [122] [117] in
   legacy_guard [a; b] (MkM [72] [110] [109] [116]) a = true /\ m_is_fq a = true.
 Proof. vm_compute. split; reflexivity. Qed.
+
+(** * 6. histories *)
+
+(** one long-lived blob.DiskCache whose models directory is also written by others (legacy store code, other
+    processes).  [cstate] is the set of manifest files on disk in c.links() order; at every state - hence after every
+    history of Link / Resolve / Unlink and foreign Plant / Remove - Resolve answers alike for all case variants *)
+Theorem C13_cache_history_casefold : forall (ops : list cop) s1 s2,
+  cv s1 s2 -> snd (c_step (c_run [] ops) (CResolve s1)) = snd (c_step (c_run [] ops) (CResolve s2)).
+Proof. intros ops s1 s2. apply c_resolve_cv. Qed.
+Print Assumptions C13_cache_history_casefold.
+
+(** after Link(s1, d) on any state, Resolve of every case variant of s1 yields d *)
+Theorem C13_cache_link_then_resolve : forall st s1 s2 d l,
+  cv s1 s2 -> c_target st s1 = Ok l -> snd (c_step (fst (c_step st (CLink s1 d))) (CResolve s2)) = (0, d).
+Proof. exact c_link_resolve. Qed.
+Print Assumptions C13_cache_link_then_resolve.
+
+Example C13_cache_link_then_resolve_nonvacuous :
+  exists l, c_target [([109; 97; 110; 105; 102; 101; 115; 116; 115; 47; 72; 47; 110; 47; 109; 47; 116], 5)] [104; 47; 110; 47; 109; 58; 116] = Ok l.
+Proof. eexists. vm_compute. reflexivity. Qed.
+
+(** the cache's own operations never write a second manifest that differs only in letter case *)
+Theorem C13_cache_history_no_twin : forall ops st,
+  forallb is_cache_op ops = true -> no_twin (paths st) -> no_twin (paths (c_run st ops)).
+Proof. exact c_run_no_twin. Qed.
+Print Assumptions C13_cache_history_no_twin.
+
+Example C13_cache_history_no_twin_nonvacuous : no_twin (paths []) /\ forallb is_cache_op [CLink [104; 47; 110; 47; 109; 58; 116] 1; CResolve [72; 47; 110; 47; 109; 58; 116]] = true.
+Proof. split; [intros p q []|reflexivity]. Qed.
+
+(** the legacy handlers (show, delete, copy, create-from): every history keeps the store valid and free of names that
+    differ only in case ... *)
+Theorem C13_handlers_history : forall ops st, h_inv st -> h_inv (h_run st ops).
+Proof. exact h_run_inv. Qed.
+Print Assumptions C13_handlers_history.
+
+Example C13_handlers_history_nonvacuous : h_inv [(MkM [104] [110] [77] [116], 1)].
+Proof.
+  split; [repeat constructor|]. intros a b [<-|[]] [<-|[]] _. reflexivity.
+Qed.
+
+(** ... and in such a store a request that spells a stored name in any letter case addresses exactly that model *)
+Theorem C13_handlers_address : forall st s1 s2,
+  h_inv st -> In (m_parse s1) (names st) -> cv s1 s2 ->
+  h_step st (HShow s2) = h_step st (HShow s1) /\ h_step st (HDelete s2) = h_step st (HDelete s1) /\
+  exists d, h_step st (HShow s1) = (st, (true, d)).
+Proof. exact h_show_cv. Qed.
+Print Assumptions C13_handlers_address.
